@@ -285,7 +285,9 @@ impl Engine for FaultWalk {
                 Probe::Farm(op) => {
                     // the farm interpreter compares the snapshot around every rejected message itself
                     // (C20 monitor) and keeps the ledger in step with what succeeded
-                    let farms_before: Vec<String> = sim.l.farms.keys().cloned().collect();
+                    // (identifier, start epoch): an expired farm may be closed and its identifier
+                    // re-used by the farm the same message creates
+                    let farms_before: Vec<(String, u64)> = sim.l.farms.values().map(|f| (f.id.clone(), f.start)).collect();
                     let pre = Snapshot::take(&sim.w);
                     sim.w.ctl.arm(Some(k));
                     let r = sim.step(op, &mut scratch);
@@ -308,7 +310,7 @@ impl Engine for FaultWalk {
                     if k >= 1 {
                         st.mark();
                     }
-                    let farms_after: Vec<String> = sim.l.farms.keys().cloned().collect();
+                    let farms_after: Vec<(String, u64)> = sim.l.farms.values().map(|f| (f.id.clone(), f.start)).collect();
                     let closed_some = farms_before.iter().any(|f| !farms_after.contains(f));
                     if closed_some && site.starts_with("bank.send") {
                         // a farm was closed although an internal transfer failed: must be its refund;
